@@ -225,9 +225,28 @@ def impl_interp_props(chk, c, r):
         if best > 1e-12:
             chk.fail("interp:point-off-the-contour", "FineContour.interpFunction places a point that is not on the polygon through the fine points", {"case": c, "s": s_, "point": [R, Z], "distance_from_polygon": best})
             return
-        # measured back: within the sagitta of the polygon (second order in the bend); 2 % of the longest segment is generous for these curves
+        # measured back (C05_placed_point_distance_round_trip): exactly s when the two fine points getDistance selects are the ends of the segment the
+        # point was placed on -- on a sharply bent polygon another fine point can be nearer, and the theorem (and this test) say nothing then
+        dists = [math.hypot(R - a, Z - b) for a, b in pos]
+        i1 = min(range(len(pos)), key=lambda k: (dists[k], k))
+
+        def ca(a, b):
+            mx, my = b[0] - a[0], b[1] - a[1]
+            t0 = (mx * (R - a[0]) + my * (Z - a[1])) / (mx * mx + my * my)
+            t0 = min(1.0, max(0.0, t0))
+            return math.hypot(R - a[0] - t0 * mx, Z - a[1] - t0 * my)
+        if i1 + 1 >= len(pos):
+            i2 = i1 - 1
+        elif i1 == 0:
+            i2 = 1
+        else:
+            i2 = i1 + 1 if ca(pos[i1], pos[i1 + 1]) < ca(pos[i1], pos[i1 - 1]) else i1 - 1
+        lo = max(k for k in range(len(pos) - 1) if cum[k] - cum[c["si"]] <= s_ + 1e-15) if s_ >= -cum[c["si"]] else 0
+        lo = min(lo, len(pos) - 2)
+        if {i1, i2} != {lo, lo + 1}:
+            continue
         seg = max(cum[k + 1] - cum[k] for k in range(len(pos) - 1))
-        if abs((back - d_si) - s_) > 0.02 * seg + 1e-12:
+        if abs((back - d_si) - s_) > 1e-9 * seg + 1e-13:
             chk.fail("interp:distance-round-trip", "the distance getDistance measures for a point placed by interpFunction at distance s is not s", {"case": c, "s": s_, "measured": back - d_si})
             return
 
